@@ -44,6 +44,7 @@ def modules():
         import pyyeti.cla.dr_results as drr
 
         _mods = SimpleNamespace(cla=cla, ode=ode, srs=srs, drr=drr)
+        sut.reset_module_state()  # records the import-time state of the package
     return _mods
 
 
